@@ -491,10 +491,6 @@ func (pr *ProtoArray) FindHead(anchorRoot Root, anchorSlot Slot) (NodeRef, error
 // InSubtree checks if root is in the subtree of the anchor.
 // If the roots are the same, it still counts as in the subtree.
 func (pr *ProtoArray) InSubtree(anchor Root, root Root) (unknown bool, inSubtree bool) {
-	// equal roots count as in-subtree.
-	if anchor == root {
-		return false, true
-	}
 	if !pr.updatedConnections {
 		if err := pr.updateConnections(); err != nil {
 			return true, false
@@ -503,6 +499,10 @@ func (pr *ProtoArray) InSubtree(anchor Root, root Root) (unknown bool, inSubtree
 	anchorSlot, ok := pr.blockSlots[anchor]
 	if !ok {
 		return true, false
+	}
+	// equal roots count as in-subtree (if the root is known at all).
+	if anchor == root {
+		return false, true
 	}
 	anchorRef := NodeRef{Root: anchor, Slot: anchorSlot}
 	anchorIndex, ok := pr.indices[anchorRef]
